@@ -38,9 +38,10 @@ theorem ensureRates_coherent (C K : Nat) (st : FcState ℝ) (h : Coherent C K st
 
 /-- **one evaluation on a coherent forecast object** returns what the same test returns on a fresh object with the same
     catalogs, keeps the catalogs, and keeps the cache coherent. -/
-theorem evalStep_history_free (C K : Nat) (st : FcState ℝ) (h : Coherent C K st) (kind : EvalKind) (obs : Grid) :
-    (evalStep C K st kind obs).2 = evalFresh C K st.sims kind obs ∧
-    (evalStep C K st kind obs).1.sims = st.sims ∧ Coherent C K (evalStep C K st kind obs).1 := by
+theorem evalStep_history_free (lg : ℝ → ℝ) (C K : Nat) (st : FcState ℝ) (h : Coherent C K st) (kind : EvalKind)
+    (obs : Grid) :
+    (evalStep lg C K st kind obs).2 = evalFresh lg C K st.sims kind obs ∧
+    (evalStep lg C K st kind obs).1.sims = st.sims ∧ Coherent C K (evalStep lg C K st kind obs).1 := by
   obtain ⟨hm, hs, hc⟩ := ensureRates_coherent C K st h
   cases kind with
   | number => exact ⟨rfl, rfl, h⟩
@@ -50,7 +51,7 @@ theorem evalStep_history_free (C K : Nat) (st : FcState ℝ) (h : Coherent C K s
     rw [hm, hs, (tests_with_mean_rates C K st.sims obs).1]
   | pseudolikelihood =>
     by_cases h0 : eventCount obs = 0
-    · have e : evalStep C K st .pseudolikelihood obs = (st, .noResult) := by simp [evalStep, h0]
+    · have e : evalStep lg C K st .pseudolikelihood obs = (st, .noResult) := by simp [evalStep, h0]
       rw [e]
       exact ⟨by simp only [evalFresh]; rw [pl_flow_empty C K st.sims obs h0], rfl, h⟩
     · simp only [evalStep, evalFresh, h0, if_false]
@@ -58,25 +59,39 @@ theorem evalStep_history_free (C K : Nat) (st : FcState ℝ) (h : Coherent C K s
       rw [hm, hs, (tests_with_mean_rates C K st.sims obs).2.1 h0]
   | magnitude =>
     by_cases h0 : eventCount obs = 0
-    · have e : evalStep C K st .magnitude obs = (st, .result emptyObsResult) := by simp [evalStep, h0]
+    · have e : evalStep lg C K st .magnitude obs = (st, .result emptyObsResult) := by simp [evalStep, h0]
       rw [e]
       exact ⟨by simp [evalFresh, magnitudeTest, h0], rfl, h⟩
     · simp only [evalStep, evalFresh, h0, if_false]
       refine ⟨?_, hs, hc⟩
       rw [hm, hs, (tests_with_mean_rates C K st.sims obs).2.2 h0]
+  | resampled draws =>
+    by_cases h0 : eventCount obs = 0
+    · have e : evalStep lg C K st (.resampled draws) obs = (st, .result emptyObsResult) := by simp [evalStep, h0]
+      rw [e]
+      exact ⟨by simp [evalFresh, resampledMagnitudeTest, h0], rfl, h⟩
+    · simp only [evalStep, evalFresh, h0, if_false]
+      exact ⟨by rw [hs], hs, hc⟩
+  | mll draws =>
+    by_cases h0 : eventCount obs = 0
+    · have e : evalStep lg C K st (.mll draws) obs = (st, .result emptyObsResult) := by simp [evalStep, h0]
+      rw [e]
+      exact ⟨by simp [evalFresh, mllMagnitudeTest, h0], rfl, h⟩
+    · simp only [evalStep, evalFresh, h0, if_false]
+      exact ⟨by rw [hs], hs, hc⟩
 
-/-- **C10 for histories**: whatever sequence of number / spatial / pseudo-likelihood / magnitude tests is run on one
-    forecast object (any order, any repetitions, each with its own observed catalog), every result is the result of that
-    test on a fresh forecast with the same synthetic catalogs. -/
-theorem session_history_free (C K : Nat) (steps : List (EvalKind × Grid)) :
+/-- **C10 for histories**: whatever sequence of number / spatial / pseudo-likelihood / magnitude / resampled-magnitude /
+    MLL tests is run on one forecast object (any order, any repetitions, each with its own observed catalog and its own
+    draws), every result is the result of that test on a fresh forecast with the same synthetic catalogs. -/
+theorem session_history_free (lg : ℝ → ℝ) (C K : Nat) (steps : List (EvalKind × Grid)) :
     ∀ (st : FcState ℝ), Coherent C K st →
-      runSession C K st steps = steps.map (fun p => evalFresh C K st.sims p.1 p.2) := by
+      runSession lg C K st steps = steps.map (fun p => evalFresh lg C K st.sims p.1 p.2) := by
   induction steps with
   | nil => intro st _; rfl
   | cons p rest ih =>
     intro st h
     obtain ⟨k, obs⟩ := p
-    obtain ⟨h1, h2, h3⟩ := evalStep_history_free C K st h k obs
+    obtain ⟨h1, h2, h3⟩ := evalStep_history_free lg C K st h k obs
     simp only [runSession, List.map_cons]
     rw [h1, ih _ h3, h2]
 
@@ -85,11 +100,14 @@ theorem fresh_forecast_coherent (C K : Nat) (sims : List Grid) : Coherent C K { 
   Or.inl rfl
 
 -- non-vacuity: S-test, N-test, S-test again (other observation), PL-test on one forecast of two catalogs
-example : runSession (α := ℝ) 2 1 { sims := [[[1], [0]], [[0], [2]]], cache := none }
-    [(.spatial, [[1], [0]]), (.number, [[1], [0]]), (.spatial, [[0], [1]]), (.pseudolikelihood, [[1], [1]])] =
-    [evalFresh 2 1 [[[1], [0]], [[0], [2]]] .spatial [[1], [0]], evalFresh 2 1 [[[1], [0]], [[0], [2]]] .number [[1], [0]],
-     evalFresh 2 1 [[[1], [0]], [[0], [2]]] .spatial [[0], [1]],
-     evalFresh 2 1 [[[1], [0]], [[0], [2]]] .pseudolikelihood [[1], [1]]] :=
-  session_history_free 2 1 _ _ (fresh_forecast_coherent 2 1 _)
+example : runSession (α := ℝ) id 2 1 { sims := [[[1], [0]], [[0], [2]]], cache := none }
+    [(.spatial, [[1], [0]]), (.number, [[1], [0]]), (.mll [[1], [1]], [[1], [0]]), (.spatial, [[0], [1]]),
+     (.resampled [[2], [2]], [[1], [1]]), (.pseudolikelihood, [[1], [1]])] =
+    [evalFresh id 2 1 [[[1], [0]], [[0], [2]]] .spatial [[1], [0]], evalFresh id 2 1 [[[1], [0]], [[0], [2]]] .number [[1], [0]],
+     evalFresh id 2 1 [[[1], [0]], [[0], [2]]] (.mll [[1], [1]]) [[1], [0]],
+     evalFresh id 2 1 [[[1], [0]], [[0], [2]]] .spatial [[0], [1]],
+     evalFresh id 2 1 [[[1], [0]], [[0], [2]]] (.resampled [[2], [2]]) [[1], [1]],
+     evalFresh id 2 1 [[[1], [0]], [[0], [2]]] .pseudolikelihood [[1], [1]]] :=
+  session_history_free id 2 1 _ _ (fresh_forecast_coherent 2 1 _)
 
 end CatEvals
